@@ -25,7 +25,13 @@ pub trait ValT: Clone + PartialEq + 'static {
 
 fn key_eq(a_id: u32, b_id: u32) -> bool {
     world::callback(Class::Eq);
-    let lawful = a_id == b_id;
+    chaos_eq(a_id == b_id, a_id, b_id)
+}
+
+/// Answer of a possibly inconsistent equality: `lawful` unless the thread's chaos mode says
+/// otherwise. Not counted as a callback; shared by the key types and by the caller-side eq closures
+/// of the HashTable interpreter.
+pub fn chaos_eq(lawful: bool, a_id: u32, b_id: u32) -> bool {
     let (mode, quiet) = world::with(|w| (w.chaos.mode, w.quiet > 0));
     if mode == 0 || quiet {
         return lawful;
